@@ -232,6 +232,76 @@ Theorem C09_world_history_wf : forall ops w, wwf w -> wrun_ok w ops -> Forall (f
 Proof. exact wrun_wf. Qed.
 Print Assumptions C09_world_history_wf.
 
+(* ---------------- round 5: READ ROUTES (Model/SubFieldRec.v `route`) ----------------
+   "reads back the assigned values" through EVERY route a caller reads a sub-field by: the array, view[i], max / min,
+   sum / count_nonzero / unique, conversion to bool / any integer type, the six comparisons with a constant. *)
+
+(* ISOLATED: after any in-range assignment to a field through any index expression, every route of every sibling
+   that shares the byte reads exactly what it read before *)
+Theorem C09_routes_isolated : forall fmt name composed m sel, In (fmt, name, composed, m) all_sub_fields ->
+  forall bs, (forall p, In p sel -> 0 <= snd p <= sf_max m) -> Forall (fun b => 0 <= b < 256) bs ->
+  forall m' ro, In m' (siblings fmt composed m) ->
+  sf_route m' (fold_left (fun bs p => set_nth bs (fst p) (sf_put m (nth (fst p) bs 0) (snd p))) sel bs) ro = sf_route m' bs ro.
+Proof. exact routes_isolated. Qed.
+Print Assumptions C09_routes_isolated.
+
+(* EXACT: every route of the assigned field is the route of the assigned VALUES - at each point the last value the
+   expression assigns to it, the old value where it addresses none - whatever the sibling bits are *)
+Theorem C09_routes_read_back : forall fmt name composed m sel, In (fmt, name, composed, m) all_sub_fields ->
+  forall bs, (forall p, In p sel -> 0 <= snd p <= sf_max m) -> Forall (fun b => 0 <= b < 256) bs ->
+  forall ro, sf_route m (fold_left (fun bs p => set_nth bs (fst p) (sf_put m (nth (fst p) bs 0) (snd p))) sel bs) ro
+             = route_vals ro (map (fun j => last_val sel j (sf_get m (nth j bs 0))) (seq 0 (length bs))).
+Proof. exact routes_read_back. Qed.
+Print Assumptions C09_routes_read_back.
+
+Theorem C09_routes_last_value : forall sel1 p sel2 j d,
+  ((forall q, In q sel2 -> fst q <> fst p) -> last_val (sel1 ++ p :: sel2) (fst p) d = snd p)
+  /\ ((forall q, In q sel1 -> fst q <> j) -> last_val sel1 j d = d).
+Proof. intros sel1 p sel2 j d. split; [apply last_val_last|apply last_val_untouched]. Qed.
+Print Assumptions C09_routes_last_value.
+
+(* the same through a record, a chain of slices of the view and a key: rec[name][s1]..[sk][key] = value *)
+Theorem C09_routes_view : forall fmt r n name c m chain sel,
+  rec_wf fmt r n -> find_sf fmt name = Some (c, m) -> chain_ok n chain ->
+  let vpos := view_chain n chain in
+  (forall p, In p sel -> 0 <= snd p <= sf_max m /\ (fst p < length vpos)%nat) ->
+  exists r', rec_assign_view fmt r name chain sel = Ok r'
+  /\ (forall name' c' m' ro, name' <> name -> find_sf fmt name' = Some (c', m') ->
+        rec_route fmt r' name' ro = rec_route fmt r name' ro)
+  /\ (forall ro, rec_route fmt r' name ro
+        = route_vals ro (map (fun j => last_val (through vpos sel) j (sf_get m (nth j (col_get r c) 0))) (seq 0 n))).
+Proof. exact routes_view. Qed.
+Print Assumptions C09_routes_view.
+
+(* rec[name] = vs (the record grows / one value is broadcast): every route of the field reads the assigned values;
+   every route of any other sub-field reads its old values, zero on the appended points *)
+Theorem C09_routes_seq : forall fmt r n name c m vs r',
+  rec_wf fmt r n -> find_sf fmt name = Some (c, m) -> vs <> [] -> rec_assign_seq fmt r name vs = Ok r' ->
+  let k := Nat.max n (length vs) in
+  (forall ro, rec_route fmt r' name ro = route_vals ro (seq_values vs k))
+  /\ (forall name' c' m' ro, name' <> name -> find_sf fmt name' = Some (c', m') ->
+        rec_route fmt r' name' ro = route_vals ro (grow (map (sf_get m') (col_get r c')) k)).
+Proof. exact routes_seq. Qed.
+Print Assumptions C09_routes_seq.
+
+(* conversions: an integer type of >= 16 bits or any unsigned type reads the value itself; bool reads "not zero",
+   which is the flag itself for a one-bit field *)
+Theorem C09_routes_dtype_exact : forall fmt name c m b, In (fmt, name, c, m) all_sub_fields -> 0 <= b < 256 ->
+  (forall bits signed, 16 <= bits \/ (8 <= bits /\ signed = false) -> wrap_int bits signed (sf_get m b) = sf_get m b)
+  /\ (as_bool (sf_get m b) = 0 <-> sf_get m b = 0)
+  /\ (sf_max m = 1 -> as_bool (sf_get m b) = sf_get m b).
+Proof. exact routes_dtype_exact. Qed.
+Print Assumptions C09_routes_dtype_exact.
+
+(* max / min: a value of the field that bounds all its values (so, with C09_routes_read_back, the extreme of the
+   assigned values) *)
+Theorem C09_routes_extremes : forall vs,
+  (forall x, route_vals RMax vs = Some [x] -> In x vs /\ Forall (fun y => y <= x) vs)
+  /\ (forall x, route_vals RMin vs = Some [x] -> In x vs /\ Forall (fun y => x <= y) vs)
+  /\ (vs <> [] -> exists x y, route_vals RMax vs = Some [x] /\ route_vals RMin vs = Some [y]).
+Proof. exact routes_extremes. Qed.
+Print Assumptions C09_routes_extremes.
+
 Example C09_nonvacuous :
   In (6, "scanner_channel"%string, "classification_flags"%string, 48) all_sub_fields
   /\ sf_assign 48 0xCF 2 = Ok 0xEF /\ sf_assign 48 0xCF 4 = Err EOverflow /\ sf_assign 48 0xCF (-1) = Err EOverflow
@@ -255,5 +325,14 @@ Example C09_nonvacuous :
          WAssign 2 (OSeq "return_number" [3; 3; 3])]) in
       map (fun w => map (fun b => col_get (obj_read w b) "bit_fields") [0; 1; 2; 3]%nat) (skipn 4 r)
       = [[[0xF9; 0xFF; 0xFA]; [0xFF; 0xFF; 0xFF]; [0xF9; 0xFA]; [0xFF; 0xFF; 0xFF]];
-         [[0xF9; 0xFF; 0xFA]; [0xFF; 0xFF; 0xFF]; [0xFB; 0xFB; 0x03]; [0xFF; 0xFF; 0xFF]]]).
-Proof. vm_compute. repeat split; try reflexivity. repeat (first [left; reflexivity | right]). Qed.
+         [[0xF9; 0xFF; 0xFA]; [0xFF; 0xFF; 0xFF]; [0xFB; 0xFB; 0x03]; [0xFF; 0xFF; 0xFF]]])
+  (* read routes: return_number = [5; 1] under number_of_returns = [1; 7] (bytes 0x0D, 0x39): the field's max is 5 and
+     its min 1 although the LARGEST packed byte holds 1 and the smallest 5; withheld (bit 7) of 0x80, 0x7F reads
+     [true; false] as bool although both bytes are non-zero; classification 200 read as int8 wraps (numpy), as int16 not *)
+  /\ sf_route 7 [0x0D; 0x39] RMax = Some [5] /\ sf_route 7 [0x0D; 0x39] RMin = Some [1]
+  /\ sf_get 7 (Z.max 0x0D 0x39) = 1 /\ sf_get 7 (Z.min 0x0D 0x39) = 5
+  /\ sf_route 128 [0x80; 0x7F] RBool = Some [1; 0] /\ map as_bool [0x80; 0x7F] = [1; 1]
+  /\ sf_route 255 [200] (RInt 8 true) = Some [-56] /\ sf_route 255 [200] (RInt 16 true) = Some [200]
+  /\ sf_route 7 [0x0D; 0x39; 0x0D] RUnique = Some [1; 5] /\ sf_route 7 [0x0D; 0x39] (RCmp 4 5) = Some [1; 0]
+  /\ sf_route 7 [0x0D; 0x39] RSum = Some [6] /\ sf_route 7 [0x08; 0x39] RCount = Some [1] /\ sf_route 7 [0x0D; 0x39] (RItem 1) = Some [1].
+Proof. split; [apply entry_mem; vm_compute; reflexivity|]. vm_compute. repeat split; reflexivity. Qed.
